@@ -191,7 +191,72 @@ def run(ctx):
     okp = v is not None and any((dotted(n) or '').endswith('parse_url_or_log') for n in ast.walk(v))
     ck.expect(okp, 'C11-D3', pr.qual, 'parse_url = parse_url_or_log',
               'ProcessingRule.parse_url is not the non-raising parser', pr.module.path)
+    _join_base_rule(ctx, esc)
     ck.info['escape_unknown_externals'] = dict(sorted(esc.unknown_external.items(), key=lambda kv: -kv[1])[:40])
+
+
+def _join_base_rule(ctx, esc):
+    """wpull.url.urljoin reads `base_url.partition(':')` for a scheme-relative link: a base that can be None turns `//host/x` in a
+    scraped document into an AttributeError, which `urljoin_safe` (ValueError only) does not catch.  The base handed to either join
+    is therefore never a value that may be None: a local all of whose definitions are non-None (parameters are the caller's duty;
+    `a or b` is as good as b; the or-None helpers of the repository - urljoin_safe itself - are None-able), or it is tested first."""
+    repo, ck, res = ctx.repo, ctx.check, ctx.res
+    from ..escape import guarded_truthy
+    n_sites = 0
+
+    def nullable(f, defs, e, depth=0):
+        if e is None or depth > 6:
+            return None
+        if isinstance(e, ast.Constant):
+            return 'None' if e.value is None else None
+        if isinstance(e, ast.BoolOp) and isinstance(e.op, ast.Or):
+            return nullable(f, defs, e.values[-1], depth + 1)
+        if isinstance(e, ast.BoolOp):
+            return next((w for w in (nullable(f, defs, v, depth + 1) for v in e.values) if w), None)
+        if isinstance(e, ast.IfExp):
+            return nullable(f, defs, e.body, depth + 1) or nullable(f, defs, e.orelse, depth + 1)
+        if isinstance(e, ast.Name):
+            for v, k, st in defs.get(e.id, []):
+                if k == 'param':
+                    continue
+                if k != 'assign':
+                    continue
+                w = nullable(f, defs, v, depth + 1)
+                if w:
+                    return '%s = %s' % (e.id, w) if len(w) < 80 else w
+            return None
+        if isinstance(e, ast.Call):
+            for g in res.callee_funcs(f, e, allow_name=True, count=False):
+                if esc._can_return_none(g):
+                    return '%s() may return None' % g.name
+            if U.attr_name(e) == 'get' and len(e.args) == 1:
+                return norm_text(e)[:40] + ' may be None'
+        return None
+
+    for f in repo.funcs.values():
+        mn = f.module.name
+        if mn.startswith(('wpull.thirdparty', 'wpull.testing')) or mn.endswith('_test') or mn == 'wpull.converter':
+            continue
+        defs = None
+        for c in U.calls(f.node):
+            if U.attr_name(c) not in ('urljoin_safe', 'urljoin') and not (isinstance(c.func, ast.Name) and c.func.id in ('urljoin_safe', 'urljoin')):
+                continue
+            if 'urllib' in norm_text(c.func) or not c.args:
+                continue
+            n_sites += 1
+            defs = defs or U.local_defs(f.node)
+            b = c.args[0]
+            why = nullable(f, defs, b)
+            if why and isinstance(b, ast.Name) and guarded_truthy(f.node, b.id, c):
+                why = None
+            ck.expect(not why, 'C11-D3', f.qual, '%s(%s, ...): the base is not None' % (U.attr_name(c) or c.func.id, norm_text(b)[:40]),
+                      'the base of this join can be None (%s): a scheme-relative link (`//host/x`) then raises AttributeError in '
+                      'wpull.url.urljoin, which no caller catches' % why, f.loc(c))
+    if n_sites < 10:
+        raise AnalysisError('expected at least ten URL join sites (found %d)' % n_sites)
+
+
+_STR_ONLY = {'match', 'search', 'fullmatch', 'sub', 'subn', 'split', 'findall', 'finditer', 'join', 'startswith', 'endswith', 'fnmatch', 'fnmatchcase'}
 
 
 def _derefs_param(repo, res, fi, pname, depth=0):
@@ -215,6 +280,9 @@ def _derefs_param(repo, res, fi, pname, depth=0):
             if dotted(n.func) == 'len' and n.args and isinstance(n.args[0], ast.Name) and n.args[0].id == pname:
                 hit = n
             else:
+                if U.attr_name(n) in _STR_ONLY and any(isinstance(a, ast.Name) and a.id == pname for a in n.args) \
+                        and not res.callee_funcs(fi, n, allow_name=False, count=False):
+                    hit = n            # pattern.match(None), str.join(None), 'x'.startswith(None): TypeError
                 for i, a in enumerate(n.args):
                     if isinstance(a, ast.Name) and a.id == pname:
                         for g in res.callee_funcs(fi, n, allow_name=False, count=False):
@@ -301,6 +369,141 @@ def _none_field_rule(ctx, ui):
                                                 arg.attr, g.qual.split(':')[-1], why)
         ck.expect(bad is None, 'C11-D1b', m.qual, 'readable when authority/query fields are None',
                   'reading this accessor on a parsed non-network URL (e.g. mailto:x) raises AttributeError/TypeError: %s' % bad, m.loc())
+    _none_field_consumers(ctx, none_fields)
+
+
+def _scheme_test(repo, mod, test, base, s):
+    """Value of a guard expression over `<base>.scheme` for the scheme string s: True / False / None (cannot tell)."""
+    def is_scheme(e):
+        return isinstance(e, ast.Attribute) and e.attr == 'scheme' and norm_text(e.value) == base
+    def consts(e):
+        if isinstance(e, (ast.Tuple, ast.List, ast.Set)) and all(isinstance(x, ast.Constant) for x in e.elts):
+            return [x.value for x in e.elts]
+        if isinstance(e, ast.Constant) and isinstance(e.value, str):
+            return None
+        try:
+            v = repo.fold(mod, e)
+        except Exception:
+            return None
+        if isinstance(v, dict):
+            return list(v)
+        if isinstance(v, (tuple, list, set, frozenset)):
+            return list(v)
+        return None
+    t = test
+    if isinstance(t, ast.UnaryOp) and isinstance(t.op, ast.Not):
+        v = _scheme_test(repo, mod, t.operand, base, s)
+        return None if v is None else (not v)
+    if isinstance(t, ast.BoolOp):
+        vs = [_scheme_test(repo, mod, x, base, s) for x in t.values]
+        if isinstance(t.op, ast.Or):
+            return True if any(v is True for v in vs) else (None if any(v is None for v in vs) else False)
+        return False if any(v is False for v in vs) else (None if any(v is None for v in vs) else True)
+    if isinstance(t, ast.Compare) and len(t.ops) == 1 and is_scheme(t.left):
+        op, r = t.ops[0], t.comparators[0]
+        if isinstance(op, (ast.In, ast.NotIn)):
+            cs = consts(r)
+            if cs is None:
+                return None
+            return (s in cs) == isinstance(op, ast.In)
+        if isinstance(op, (ast.Eq, ast.NotEq)) and isinstance(r, ast.Constant):
+            return (s == r.value) == isinstance(op, ast.Eq)
+    if isinstance(t, ast.Call) and isinstance(t.func, ast.Attribute) and is_scheme(t.func.value) and t.func.attr in ('startswith', 'endswith') \
+            and len(t.args) == 1:
+        a = t.args[0]
+        vals = [a.value] if isinstance(a, ast.Constant) and isinstance(a.value, str) else consts(a)
+        if vals is None:
+            return None
+        return any(getattr(s, t.func.attr)(v) for v in vals)
+    return None
+
+
+def _none_field_consumers(ctx, none_fields):
+    """Outside wpull/url.py: a URLInfo taken from a scraped link may be the result for a non-network scheme, whose authority /
+    query / fragment / host fields are None.  Whoever dereferences such a field (method call, subscript, a helper that needs a str)
+    first pins the scheme to the network schemes - by a guard that is decided, here, for every probe scheme outside the parser's own
+    table (including the near misses `httpx`, `https+x`, `ftps`) - or tests the field itself."""
+    repo, ck, res = ctx.repo, ctx.check, ctx.res
+    from ..escape import guarded_truthy
+    table = repo.fold(repo.module(URL), ast.Name(id='RELATIVE_SCHEME_DEFAULT_PORTS', ctx=ast.Load()))
+    if not isinstance(table, dict) or 'http' not in table:
+        raise AnalysisError('RELATIVE_SCHEME_DEFAULT_PORTS is not a constant table')
+    probes = sorted({k + suf for k in table for suf in ('s', 'x', '+unix', '-equiv', 'ss')} | {'mailto', 'javascript', 'data', 'file', 'about', 'urn', 'tel'})
+    probes = [p for p in probes if p not in table]
+    n_sites = 0
+    for f in repo.funcs.values():
+        mn = f.module.name
+        if mn == URL or mn.startswith(('wpull.thirdparty', 'wpull.testing')) or mn.endswith('_test'):
+            continue
+        sites = []
+        for n in walk_no_nested(f.node):
+            fld = None
+            if isinstance(n, (ast.Attribute, ast.Subscript)) and isinstance(n.value, ast.Attribute) and n.value.attr in none_fields \
+                    and isinstance(getattr(n, 'ctx', None), ast.Load):
+                fld = n.value
+                what = norm_text(n)[:50]
+            elif isinstance(n, ast.Call):
+                for i, a in enumerate(n.args):
+                    if isinstance(a, ast.Attribute) and a.attr in none_fields:
+                        for g in res.callee_funcs(f, n, allow_name=True, count=False):
+                            gp = [p for p in g.params if p not in ('self', 'cls')]
+                            if i < len(gp):
+                                why = _derefs_param(repo, res, g, gp[i])
+                                if why:
+                                    fld, what = a, '%s -> %s' % (norm_text(n)[:40], why)
+            if fld is None:
+                continue
+            base = norm_text(fld.value)
+            if not (base.endswith('url_info') or base.endswith('_info') or base == 'info'):
+                continue
+            sites.append((n, fld, base, what))
+        if not sites:
+            continue
+        parents = U.parents(f.node)
+        for n, fld, base, what in sites:
+            n_sites += 1
+            ok = False
+            # (a) the field itself is tested: `X.query and X.query[...]`, `if X.fragment:`
+            cur = n
+            while id(cur) in parents and not ok:
+                par = parents[id(cur)]
+                if isinstance(par, ast.BoolOp) and isinstance(par.op, ast.And):
+                    idx = next((i for i, v in enumerate(par.values) if v is cur or any(x is cur for x in ast.walk(v))), 0)
+                    ok = any(norm_text(v) == norm_text(fld) for v in par.values[:idx])
+                if isinstance(par, (ast.If, ast.IfExp)) and any(x is cur for b in ([par.body] if isinstance(par, ast.IfExp) else par.body) for x in ast.walk(b)) \
+                        and norm_text(par.test) == norm_text(fld):
+                    ok = True
+                cur = par
+            # (b) a scheme guard: an earlier `if <test>: return/raise/continue` of an enclosing block that every probe takes, or
+            #     an enclosing `if <test>:` no probe enters
+            why_not = 'no guard on %s.scheme precedes it' % base
+            cur = n
+            while id(cur) in parents and not ok:
+                par = parents[id(cur)]
+                if isinstance(par, ast.If) and any(x is cur for b in par.body for x in ast.walk(b)):
+                    vs = [_scheme_test(repo, f.module, par.test, base, s) for s in probes]
+                    if all(v is False for v in vs):
+                        ok = True
+                for fldname in ('body', 'orelse', 'finalbody'):
+                    blk = getattr(par, fldname, None)
+                    if isinstance(blk, list) and cur in blk:
+                        for st in blk[:blk.index(cur)]:
+                            if isinstance(st, ast.If) and st.body and isinstance(st.body[-1], (ast.Return, ast.Raise, ast.Continue)):
+                                vs = {s: _scheme_test(repo, f.module, st.test, base, s) for s in probes}
+                                if any(v is not None for v in vs.values()):
+                                    miss = [s for s, v in vs.items() if v is not True]
+                                    if not miss:
+                                        ok = True
+                                    else:
+                                        why_not = 'the guard `%s` lets the scheme(s) %s through, for which the parser leaves the field None' % (
+                                            norm_text(st.test)[:60], ', '.join(repr(s) for s in miss[:4]))
+                cur = par
+            ck.expect(ok, 'C11-D1b', f.qual, '%s: field of a network-scheme URL (or tested)' % what.split(' [')[0],
+                      '`%s` needs a str but %s is None for every scheme outside the parser\'s table: %s - a scraped link with such a scheme '
+                      'ends the crawl with AttributeError/TypeError' % (what, norm_text(fld), why_not), f.loc(n))
+    ck.info['none_field_consumer_sites'] = n_sites
+    if n_sites < 3:
+        raise AnalysisError('expected the URL rewriter\'s uses of query/fragment among the consumers of scheme-dependent fields (found %d)' % n_sites)
 
 
 def _within(root, node):
